@@ -88,6 +88,11 @@ func (a *StructAnalyzer) AnalyzePackage(pkgPath string) ([]*GenerationInfo, erro
 		}
 
 		for fileName, file := range astPkg.Files {
+			if strings.HasSuffix(fileName, "_test.go") {
+				// a struct of a test file only exists in test builds; the
+				// generated file would not, and the package would stop building
+				continue
+			}
 			structs, err := a.analyzeFile(fileName, file, pkgName)
 			if err != nil {
 				return nil, fmt.Errorf("analyze file %s: %w", fileName, err)
